@@ -50,7 +50,10 @@ mod ws_lock {
             if self.b_running {
                 return;
             }
-            if self.b_pending && !self.lock_held && kani::any::<bool>() {
+            // B may start at ANY yield point; its (blocking) acquire assumes the lock free, which prunes the schedules in which it
+            // would have to wait (they equal the schedule that starts it after the release). A non-blocking use of the lock
+            // (try-acquire, select! with another future) is thereby explored while the lock is HELD.
+            if self.b_pending && kani::any::<bool>() {
                 self.run_b();
             }
         }
@@ -74,6 +77,28 @@ mod ws_lock {
     }
     #[derive(Clone, Copy)]
     pub struct ModelUnit(pub *mut World);
+    impl ModelUnit {
+        // a watch receiver's `changed()`: may complete at any time (a cancel request can arrive at any moment)
+        pub fn changed(&mut self) -> Result<(), ()> {
+            Ok(())
+        }
+    }
+    // tokio::select! over two futures, as far as the locked sections might use it: either branch whose future can complete is
+    // taken (solver's choice); a lock acquisition can complete only while the lock is free (its model assumes so)
+    pub mod tokio {
+        macro_rules! select {
+            ($p1:pat = $e1:expr => $b1:expr, $p2:pat = $e2:expr => $b2:expr $(,)?) => {
+                if kani::any::<bool>() {
+                    let $p1 = $e1;
+                    $b1
+                } else {
+                    let $p2 = $e2;
+                    $b2
+                }
+            };
+        }
+        pub(crate) use select;
+    }
     #[derive(Clone, Copy)]
     pub struct ModelId;
     pub struct ModelInvocation;
@@ -102,7 +127,7 @@ mod ws_lock {
         pub fn acquire(&self) -> ModelGuard {
             let w = unsafe { &mut *self.0 };
             w.yield_point();
-            assert!(!w.lock_held, "model: acquire while the lock is held (scheduler must not get here)");
+            kani::assume(!w.lock_held); // blocking acquire: completes only while the lock is free
             w.lock_held = true;
             w.acquires += 1;
             ModelGuard(self.0)
